@@ -1,13 +1,15 @@
 /-
-C18 — Diffs printed by `--check` reconstruct the formatted file (the JSON producer, which is
-StyLua's own code; the unified format is produced inside the `similar` crate and is only
-applied, not modelled).
+C18 — Diffs printed by `--check` reconstruct the formatted file: the JSON producer (StyLua's own
+code, Model/Diff.lean) and the unified format (the grouping, hunk-header and hunk-body code of the
+`similar` crate that `output_diff_unified` calls, Model/Unified.lean). The edit script itself
+(Myers + compaction inside `similar`) is a parameter of both models.
 Property theorems and non-vacuity examples only; helper lemmas are in Lemmas/Diff.lean.
 -/
 import StyluaModel.Lemmas.Diff
+import StyluaModel.Lemmas.Unified
 
 namespace StyluaModel.C18
-open StyluaModel.Diff StyluaModel.DiffLemmas
+open StyluaModel.Diff StyluaModel.DiffLemmas StyluaModel.Unified
 
 /-- **the JSON mismatches, applied as line-range replacements, yield exactly the formatted
 text** — for every valid edit script, over files of any length, in which every pure insertion
@@ -65,9 +67,56 @@ theorem C18_pinned_violates :
     Valid ops old new = true ∧ apply 0 old (mismatches pinned 0 0 ops old new) = [1, 2, 5] ∧
     apply 0 old (mismatches repaired 0 0 ops old new) = new := by decide
 
+
+/-! ## the unified format -/
+
+/-- **applying the printed unified diff to the file yields exactly the formatted text** - with a
+*strict* applier (every context and deleted line must be present where the header says, all four
+header numbers must agree with the hunk body and with the position of the output, no fuzz): for
+every valid edit script whose index fields are the running positions, over files of any length,
+and for every context radius (`similar` uses 3) -/
+theorem C18_unified (n : Nat) (xs : List IOp) (old new : List Nat)
+    (hs : InOrder 0 0 xs = true) (hv : Valid (xs.map (·.op)) old new = true) :
+    applyU 0 0 old (hunks n xs old new) = some new :=
+  UnifiedLemmas.unified_main n xs old new hs hv
+
+/-- **nothing is printed only if the file is already formatted**: `output_diff_unified` returns
+`None` iff `ratio() == 1.0`; with exact arithmetic that is the case iff the script has no
+Delete / Insert / Replace, and then the two files are equal (the `f32` rounding of the quotient -
+exact below 2^24 lines - and the converse, which needs the script to be minimal, are not modelled) -/
+theorem C18_unified_none (ops : List Op) (old new : List Nat) (h : Valid ops old new = true) :
+    (ratioIsOne ops old.length new.length = true ↔ ops.all isEqualOp = true) ∧
+    (ratioIsOne ops old.length new.length = true → old = new) :=
+  ⟨UnifiedLemmas.ratio_iff ops old new h,
+   fun hr => equal_script_same ops old new h ((UnifiedLemmas.ratio_iff ops old new h).mp hr)⟩
+
+/-- the numbers of a hunk header (`UnifiedDiffHunkRange::fmt`: a length of 1 is omitted, an empty
+range is written with the line *before* it) are read back by a patch tool as the range they came from -/
+theorem C18_header_roundtrip (s e : Nat) (h : s ≤ e) : decodeRange (encodeRange s e) = (s, e - s) :=
+  UnifiedLemmas.range_roundtrip s e h
+
+/-- the hypothesis `InOrder` is needed: with a stale index field on the first operation of a hunk the
+header is wrong and the strict applier rejects the diff (the real scripts are checked for this by
+the correspondence, which runs `applyU` on them) -/
+theorem C18_unified_stale_index_rejected :
+    let old := [1, 2, 3]
+    let new := [1, 9, 2, 3]
+    let good : List IOp := [⟨.equal 1, 0, 0⟩, ⟨.insert 1, 1, 1⟩, ⟨.equal 2, 1, 2⟩]
+    let stale : List IOp := [⟨.insert 1, 2, 1⟩, ⟨.equal 2, 1, 2⟩]
+    applyU 0 0 old (hunks 3 good old new) = some new ∧
+    applyU 0 0 old (hunks 0 stale old new) = none := by decide
+
 /-! ## non-vacuity -/
 example : Valid [.equal 1, .replace 1 2, .delete 1, .equal 1, .insert 1] [1, 2, 3, 4] [1, 7, 8, 4, 9] = true ∧
     apply 0 [1, 2, 3, 4] (mismatches repaired 0 0 [.equal 1, .replace 1 2, .delete 1, .equal 1, .insert 1] [1, 2, 3, 4] [1, 7, 8, 4, 9])
       = [1, 7, 8, 4, 9] := by decide
+
+/-- two hunks at radius 1: the gap between them is copied, both headers are accepted -/
+example :
+    let old := [1, 2, 3, 4, 5, 6, 7, 8]
+    let new := [1, 20, 3, 4, 5, 6, 8]
+    let xs : List IOp := [⟨.equal 1, 0, 0⟩, ⟨.replace 1 1, 1, 1⟩, ⟨.equal 4, 2, 2⟩, ⟨.delete 1, 6, 6⟩, ⟨.equal 1, 7, 6⟩]
+    InOrder 0 0 xs = true ∧ Valid (xs.map (·.op)) old new = true ∧ (hunks 1 xs old new).length = 2 ∧
+    applyU 0 0 old (hunks 1 xs old new) = some new := by decide
 
 end StyluaModel.C18
